@@ -76,15 +76,25 @@ def place_initial(grid, agents, wags):
     for i, w in enumerate(wags):
         enc, pos, health, active, ammo, orient, blocking = w
         a = agents[aid(i)]
-        a._position = None
-        a._health = health / HD
-        a._active = bool(active)
+        # through the public setters only (the backing attributes are private to the library)
+        a.position = None
+        a.health = health / HD          # within [0, 1]: the setter's clamp is the identity here
+        a.active = bool(active)         # after health: its setter derives active from health
         if ammo:
-            a._ammo = ammo[0]
+            a.ammo = ammo[0]
         if orient:
-            a._orientation = orient[0]
+            a.orientation = orient[0]
         if pos:
             grid.place(a, tuple(pos))
+
+
+def pub(agent, name, default=None):
+    """A public attribute of an agent; `default` when the agent has no such attribute or it was never
+    set (the getters raise AttributeError then)."""
+    try:
+        return getattr(agent, name)
+    except AttributeError:
+        return default
 
 
 def snapshot(grid, agents, quantise=False):
@@ -95,8 +105,8 @@ def snapshot(grid, agents, quantise=False):
     ags = []
     for i in range(len(agents)):
         a = agents[aid(i)]
-        pos = getattr(a, "_position", None)
-        h = getattr(a, "_health", 0)
+        pos = pub(a, "position")
+        h = pub(a, "health", 0)
         if quantise:
             ht = -1 if h < 0 else (HD + 1 if h > 1 else int(math.ceil(h * HD)))
         else:
@@ -105,13 +115,13 @@ def snapshot(grid, agents, quantise=False):
         ags.append([a.encoding,
                     [int(pos[0]), int(pos[1])] if pos is not None else [],
                     ht, 1 if a.active else 0,
-                    [int(a._ammo)] if hasattr(a, "_ammo") else [],
-                    [int(a._orientation)] if hasattr(a, "_orientation") else [],
+                    [int(a.ammo)] if pub(a, "ammo") is not None else [],
+                    [int(a.orientation)] if pub(a, "orientation") is not None else [],
                     1 if a.blocking else 0])
     cells = []
     for r in range(grid.rows):
         for c in range(grid.cols):
-            d = grid._internal[r, c]
+            d = grid[r, c]
             cells.append([aidx(k) for k in d.keys()] if d else [])
     return [ags, cells]
 
